@@ -26,6 +26,11 @@ class Unsupported(Exception):
     pass
 
 
+class SignedOrder(Exception):
+    """a SIGNED byte comparison / maximum applied directly to key bytes: not the byte order of the keys"""
+    pass
+
+
 class NeedLane(Exception):
     """the result depends on a lane beyond the child count (stale content, free): the driver forks on it"""
 
@@ -198,6 +203,12 @@ class Lanes:
                 if not (isinstance(a, Vec) and isinstance(b, Vec)):
                     raise Unsupported('_mm_max_epu8 operands')
                 return Vec([x if x == y else ('max', x, y) for x, y in zip(a.lanes, b.lanes)])
+            if nm in ('_mm_max_epi8', '_mm_min_epi8', '_mm_cmpgt_epi8', '_mm_cmplt_epi8'):
+                a, b = self.ev(args[0], depth + 1), self.ev(args[1], depth + 1)
+                raw = lambda v: isinstance(v, Vec) and all(l[0] in ('k', 'key', 'z') for l in v.lanes)
+                if raw(a) and raw(b):
+                    raise SignedOrder(nm)
+                raise Unsupported('call of ' + nm + ' on transformed lanes')
             if nm == 'popcount' and (e.get('callee') or '').startswith('std::'):
                 v = self.ev(args[0], depth + 1)
                 if isinstance(v, int):
@@ -379,6 +390,9 @@ def _simd(res, cfg, f, n):
                     break
             if bad:
                 break
+    except SignedOrder as so:
+        res.incompl('FIND-1: I%s::find_child (%s) uses the signed byte operation %s' % (n, flavor, so))
+        return
     except Unsupported as u:
         res.incompl('FIND-1: I%s::find_child (%s) left the supported operator set: %s' % (n, flavor, u))
         return
@@ -593,6 +607,10 @@ def ord1(cfg):
                         break
                 if bad:
                     break
+        except SignedOrder as so:
+            res.ob(False, {'rule': 'ORD-1', 'method': 'I%s::%s (%s)' % (n, f.short, flavor), 'site': fileline(f.loc), 'verdict': 'VIOLATION: signed comparison %s on key bytes' % so})
+            res.find(f, f.loc, 'I%s::%s: the insert position is computed with the SIGNED byte operation %s applied directly to the key bytes: key bytes >= 0x80 compare below smaller ones, so a node that mixes both halves of the byte range is no longer sorted by key byte - lookups still work, every ordered enumeration (scans, seek) through the node goes wrong' % (n, f.short, so), key='ORD-1:I%s:signed' % n, config=cfg.name)
+            continue
         except Unsupported as u:
             res.incompl('ORD-1: I%s::%s (%s) left the supported operator set: %s' % (n, f.short, flavor, u))
             continue
